@@ -1,15 +1,17 @@
 """
 C19 - dictionary findall returns complete, resolvable, history-independent results.
 
-Lean: Model/FindAll.lean, Proofs/FindAll.lean, Props/C19.lean
+Lean: Model/FindAll.lean, Proofs/FindAll.lean, Proofs/FindAllDesc.lean, Props/C19.lean
 B streams: fa.tok (normalisation), fa.find (findall end to end + state of the default objects after the call),
   fa.raw (_findall with raise_exception=False / explicit token lists), fa.first (findfirst), fa.hist (sequences of
   searches through the shared default objects)
-C evaluators (the statement on the real code): resolves (every key through item access, identity), exact (an exact
-  node path finds exactly its node), fanout (name on a list), descendant ('//*/name' vs an independent DFS), pure
+C evaluators (the statement on the real code): search (every key through item access and get, identity; every key
+  walked by plain Python indexing), exact (an exact node path finds exactly its node), fanout (name on a list),
+  descendant ('//*/name' vs an independent DFS, in the document order of the theorem, again after other searches), pure
   (tree unchanged), defaults (_findall.__defaults__ after every call), history (a search inside a sequence equals
   the same search on a freshly loaded module), findfirst.
 """
+import re
 import types
 
 from harness import core
@@ -22,9 +24,9 @@ MANIFEST = dict(
               "arguments as explicit state + differential correspondence with the implementation (results in order, exception "
               "class, contents of _findall.__defaults__ after every call) + the statement executed on the implementation",
     text="Lean (Props/C19.lean), all unbounded in tree size, depth, expression and history length, for the code with "
-         "fixes C19-a/C19-b applied: C19_state_invariant - a search started from the fresh default objects ([], {}) leaves "
-         "them ([], {}), for every tree, expression and outcome (exceptions included); C19_objects_untouched - no call of "
-         "_findall modifies the stack dict it received and an empty path list stays empty; C19_list_changes_last_only - a "
+         "fixes C19-a/C19-b/C19-c applied: C19_state_invariant - a search started from the fresh default objects ([], {}) "
+         "leaves them ([], {}), for every tree, expression and outcome (exceptions included); C19_objects_untouched - no call "
+         "of _findall modifies the stack dict it received and an empty path list stays empty; C19_list_changes_last_only - a "
          "call changes at most the last element of the list it received; C19_history_independent - in every sequence of "
          "searches on the same or different trees each result equals the result of the same search run alone; "
          "C19_findfirst_state - the same for findfirst; C19_pure - every value returned occurs in the tree searched (the "
@@ -34,14 +36,27 @@ MANIFEST = dict(
          "through the item-access model (C01 engine) to the same node, tree unchanged; C19_findfirst - findfirst is the "
          "single pair / (None, None) / IndexError exactly as documented; C19_fanout, C19_fanout_all - a name applied to a "
          "list of containers is the [*] step followed by the name and returns the merged outcomes of all elements in "
-         "order under the paths ...[i]. Counter-example theorems: C19_text_key_cex (open finding C19-c), "
-         "C19_scalar_in_list_cex (outside the quantifier). Stated, differential only: C19_descendant_complete_stmt "
-         "('//*/name' = all nodes called name and nothing else; evaluator 'descendant' against an independent DFS), "
-         "C19_resolves_all_stmt (every key of every result without a text() step resolves; evaluator 'search'). The model "
-         "is compared with the real findall/_findall/findfirst on results in order, exception class and the contents of "
-         "_findall.__defaults__ after every call, single searches and sequences; the statement itself (identity `is`, "
-         "tree unchanged, defaults empty, in-sequence == freshly loaded module, fan-out, descendant, findfirst) is "
-         "executed on the implementation.",
+         "order under the paths ...[i]. Descendant wildcard, for dict-rooted trees whose keys are plain names, no "
+         "dictionary listing a key twice, every list containing only dicts/lists (KeysOkV, ContOkV): "
+         "C19_descendant_complete - '//*/name' returns exactly the pairs (canonical xpath of p, node at p) for the "
+         "positions p listed by descV, in document order (a node's own entry first, then below each child in key / element "
+         "order); C19_descendant_positions - descV lists (p, w) iff p ends with the key name and the node at p is w (both "
+         "inclusions, any depth, through dicts and lists); C19_descendant_distinct - no position twice, canonical xpaths "
+         "of distinct plain positions differ; C19_descendant_complete_iff - the same as a membership equivalence. Every "
+         "key resolves, for dict-rooted trees with plain keys and no key twice and EVERY expression (names, '*', indexes "
+         "incl. negative and last()+-k, [*], '..', text() conditions): C19_keys_spell - each key of each result is '//' + "
+         "steps (keys, attached integer indexes as written) along which plain Python indexing from the root reaches the "
+         "value, proved through the invariant 'the found-path list renders the position of the current node and every "
+         "proper prefix registered in the stack is registered with its node' over every branch of _findall with the state "
+         "threading of the model; C19_resolves_all - hence item access and get (C01 engine, C01_spellings_string) return "
+         "that value and leave the tree unchanged. C19_text_key_fixed (witness of the former finding C19-c), "
+         "C19_scalar_in_list_cex (outside the quantifier). NOT proved, differential only: the descendant and resolution "
+         "statements for list-rooted containers (n0list.findall), object identity, the real tree not being written. The "
+         "model is compared with the real findall/_findall/findfirst on results in order, exception class and the contents "
+         "of _findall.__defaults__ after every call, single searches and sequences; the statement itself (identity `is`, "
+         "item access and get per key, each key walked by plain indexing, tree unchanged, defaults empty, in-sequence == "
+         "freshly loaded module, fan-out, descendant in document order and again after other searches on the same object, "
+         "findfirst) is executed on the implementation.",
     note="keys are plain names (an n0dict resolves keys containing '/' or '[' as xpaths); lower()/isnumeric() beyond ASCII "
          "are outside the model (answered 'unsupported'); object identity is checked on the implementation only.",
     design_ref="5/C19",
@@ -310,16 +325,7 @@ def has_text(expr):
     return any(t.startswith("[") and t[1:].replace(" ", "").lower().startswith("text()") for t in model_tokens(expr))
 
 
-def text_step(c, detail=None):
-    """C19-c: the expression contains a text() condition: the key of the result carries the condition text, which item
-    access reads with its own (case-sensitive, '=='/'!=' only) condition syntax.  Only the 'resolves' part of the
-    evaluator is covered."""
-    if has_text(c.get("expr", "")) and (detail is None or detail.get("what") == "resolves"):
-        return "C19-c"
-    return None
-
-
-CLASSIFIERS = {"text_step": text_step}
+CLASSIFIERS = {}
 
 
 # --------------------------------------------------------------------------- C evaluators
@@ -333,6 +339,29 @@ def same_found(a, b):
     if x is None or y is None:
         return x is None and y is None
     return list(x.keys()) == list(y.keys()) and all(x[k] is y[k] for k in x)
+
+
+_MISSING = object()
+_GROUP = re.compile(r"^([^\[\]/]*)((?:\[-?\d+\])*)$")
+
+
+def walk_key(o, key):
+    """plain Python indexing along a key of the form //name[i][j]/name...; ('bad', why) when the key is not of that form"""
+    if not key.startswith("//"):
+        return ("bad", "prefix")
+    cur = o
+    for n, g in enumerate(key[2:].split("/") if key != "//" else []):
+        m = _GROUP.match(g)
+        if not m or not g or (not m.group(1) and not (n == 0 and isinstance(o, list))):
+            return ("bad", "group " + g)
+        try:
+            if m.group(1):  # only the first group of a list-rooted search has no name ("//[0]/a")
+                cur = dict.__getitem__(cur, m.group(1))
+            for i in re.findall(r"\[(-?\d+)\]", m.group(2)):
+                cur = list.__getitem__(cur, int(i))
+        except Exception as e:  # noqa: BLE001
+            return ("bad", type(e).__name__ + " at " + g)
+    return ("ok", cur)
 
 
 def check_search(c):
@@ -359,6 +388,13 @@ def check_search(c):
                 return {"what": "resolves", "key": k, "item_access_raised": rr[1]}
             if rr[1] is not v:
                 return {"what": "resolves", "key": k, "item_access_gave": repr(rr[1])[:120], "findall_gave": repr(v)[:120]}
+            rg = core.call(lambda: o.get(k, _MISSING))
+            if rg[0] != "ok" or rg[1] is not v:
+                return {"what": "resolves", "key": k, "get_gave": repr(rg)[:120], "findall_gave": repr(v)[:120]}
+            # C19_keys_spell: the key is "//" + groups name[i][j]...; plain Python indexing along them reaches the value
+            w = walk_key(o, k)
+            if w[0] != "ok" or w[1] is not v:
+                return {"what": "spells", "key": k, "walk": repr(w)[:160], "findall_gave": repr(v)[:120]}
         return None
     finally:
         reset_defaults()
@@ -428,13 +464,41 @@ def dfs_named(node, path, name):
     return out
 
 
+def desc_spec(node, path, name):
+    """the order of the theorem (Lean `descV`): the node's own entry `name` first, then what lies below each container
+    child in the order of the keys; a list: below each element in order"""
+    out = []
+    if isinstance(node, dict):
+        if name in dict.keys(node):
+            out.append((("//" + name) if path == "//" else (path + "/" + name), dict.__getitem__(node, name)))
+        for k in dict.keys(node):
+            v = dict.__getitem__(node, k)
+            if isinstance(v, (dict, list)):
+                out += desc_spec(v, ("//" + k) if path == "//" else (path + "/" + k), name)
+    elif isinstance(node, list):
+        for i, v in enumerate(node):
+            out += desc_spec(v, "%s[%d]" % (path, i), name)
+    return out
+
+
 def check_descendant(c):
     o = X.convert(c["tree"], c["mode"])
     want = dfs_named(o, "//", c["name"])
+    spec = desc_spec(o, "//", c["name"])
     r = core.call(lambda: o.findall("//*/" + c["name"]))
     if r[0] != "ok":
         return {"raised": r[1]}
     got = r[1] or {}
+    # C19_descendant_complete: exactly these pairs in document order
+    if [k for k, _ in spec] != list(got.keys()) or any(got[k] is not v for k, v in spec):
+        if sorted(k for k, _ in spec) == sorted(got.keys()):
+            return {"order": list(got.keys())[:6], "want_order": [k for k, _ in spec][:6]}
+    # the same search again on the same object, after other searches (also failing ones) on it
+    for other in ("*", "zz/..", "[0]", c["name"] + "/.."):
+        core.call(lambda: o.findall(other))
+    r2 = core.call(lambda: o.findall("//*/" + c["name"]))
+    if not same_found(r, r2):
+        return {"after_related_calls": show_found(r2)[:300], "first": show_found(r)[:300]}
     wd = dict(want)
     if len(wd) != len(want):
         return {"oracle_keys_collide": True}
@@ -511,7 +575,7 @@ def check_findfirst(c):
 
 
 EVALS = {"search": check_search, "exact": check_exact, "fanout": check_fanout, "descendant": check_descendant, "history": check_history, "findfirst": check_findfirst}
-KNOWN = {"search": text_step, "exact": None, "fanout": None, "descendant": None, "history": None, "findfirst": None}
+KNOWN = {"search": None, "exact": None, "fanout": None, "descendant": None, "history": None, "findfirst": None}
 
 
 def case_valid(ev, c):
@@ -543,13 +607,35 @@ def shrink_failure(evaluator, case):
     if "pos" in case:  # positions and expressions are tied to the tree: keep the case
         return case
 
+    first = f(case)
+    kind = failure_kind(first)
+
+    def texts(c):
+        # the searched name / expression(s) are part of the property's quantifier: only the trees may shrink
+        return (c.get("name"), c.get("expr"), c.get("mode"), sorted({e for _i, e in c.get("steps", [])}) if "steps" in c else None)
+
     def still(c):
         if not case_valid(ev, c):
             return False
+        if "steps" in c:
+            if not set(e for _i, e in c["steps"]) <= set(e for _i, e in case["steps"]):
+                return False
+        elif texts(c) != texts(case):
+            return False
         bad = f(c)
-        return bad is not None and not (kn and kn(c, bad))
+        return bad is not None and failure_kind(bad) == kind and not (kn and kn(c, bad))
 
     return core.shrink(case, still)
+
+
+def failure_kind(bad):
+    """what went wrong, without the data: a shrunk case must fail for the same reason"""
+    if not isinstance(bad, dict):
+        return None
+    if "what" in bad:
+        return ("what", bad["what"])
+    return tuple(sorted(k for k in bad if k in ("raised", "missing", "order", "after_related_calls", "defaults_after_call", "tree_changed",
+                                                  "in_sequence", "oracle_keys_collide", "raise_exception", "found", "got", "key")))
 
 
 def replay(rp):
@@ -659,7 +745,7 @@ def run(ctx):
 
     # ---- C: the statement on in-quantifier trees
     inq = [s for s in searches if s["inq"]]
-    ctx.evaluate("search", inq, check_search, in_known=text_step, nontrivial=lambda c: len(model_tokens(c["expr"])) > 1)
+    ctx.evaluate("search", inq, check_search, nontrivial=lambda c: len(model_tokens(c["expr"])) > 1)
     ctx.evaluate("findfirst", inq[:: 2], check_findfirst)
     rng = ctx.rng("exact")
     exact, fan, desc = [], [], []
